@@ -414,10 +414,11 @@ class Out:
 
 class ExcRec:
     """an exception in flight: the abstract exception object, where it originated, the call chain from the current function"""
-    __slots__ = ('atom', 'origin', 'chain', 'converted_from')
+    __slots__ = ('atom', 'origin', 'chain', 'converted_from', 'implicit')
 
-    def __init__(self, atom, origin, chain, converted_from=None):
+    def __init__(self, atom, origin, chain, converted_from=None, implicit=False):
         self.atom, self.origin, self.chain, self.converted_from = atom, origin, chain, converted_from
+        self.implicit = implicit      # stands for whatever the try body raises implicitly for this handler: never leaves it
 
     @property
     def cls(self):
@@ -632,6 +633,7 @@ class Interp:
         self.ev_dead_branch = {}
         self.reached = set()
         self.reached_nodes = set()
+        self.binding_atoms = set()
         self._index(tree, '', None)
         self.module = Frame(self, '<module>', tree, None, 0)
         self.frames[0] = self.module
@@ -642,6 +644,18 @@ class Interp:
         if out.next:
             self.module.store = join_stores(out.next)
         self.in_module_init = False
+        # mnemonic bindings: module-level partial(...) objects (by name or inside a module-level table).  That the integer
+        # such a binding returns fits its instruction width is the theorem of C01 / C02 (layout rules), taken as given here.
+        self.binding_atoms = set()
+        for v in self.module.store.vars.values():
+            for a in v:
+                if a[0] == 'partial':
+                    self.binding_atoms.add(a)
+                elif a[0] == 'kdict':
+                    for _, vv in a[1]:
+                        for b in vv:
+                            if b[0] == 'partial':
+                                self.binding_atoms.add(b)
 
     # -- static structure ---------------------------------------------------------------------------------------------------
     def _index(self, node, prefix, cls):
@@ -959,7 +973,8 @@ class Interp:
             if not fr.handling:
                 raise self.err(st, 'bare raise outside a handler')
             for rec in fr.handling[-1]:
-                out.exc.append((store.copy(), rec))
+                if not rec.implicit:
+                    out.exc.append((store.copy(), rec))
             return
         v = self.eval(fr, st.exc)
         if st.cause is not None:
@@ -975,7 +990,8 @@ class Interp:
                 self.raise_atom(fr, a, st, store, out)
             elif a[0] == 'caught':
                 for rec in self.caught_tbl.get(a[1], []):
-                    out.exc.append((store.copy(), rec))
+                    if not rec.implicit:
+                        out.exc.append((store.copy(), rec))
             elif a == TOP:
                 raise self.err(st, 'raise of an unknown value')
 
@@ -1135,6 +1151,14 @@ class Interp:
             if not caught:
                 res.exc.append((s, rec))
         for h, inp in zip(st.handlers, inputs):
+            # the handler was written because the body can raise its type(s) in ways the analysis does not model (KeyError of
+            # a table lookup, ValueError of an unpacking ...): its body is analysed for such an exception too; the stand-in
+            # itself is caught right here and never propagates
+            fr.store = store
+            names = self.handler_type_names(fr, h)
+            if names:
+                base = join_stores([store] + list(o.next)) if o.next else store
+                inp = inp + [(base.copy(), ExcRec(('obj', names[0], None), h, ((fr.qual, h),), implicit=True))]
             if not inp:
                 continue
             s = join_stores([x[0] for x in inp])
@@ -1173,6 +1197,24 @@ class Interp:
                 fin.absorb(of)
             res = fin
         out.absorb(res, True)
+
+    def handler_type_names(self, fr, h):
+        if h.type is None:
+            return ['Exception']
+        try:
+            tv = self.eval(fr, h.type)
+        except Unreachable:
+            return []
+        names = []
+        for a in tv:
+            if a[0] == 'cls':
+                names.append(a[1])
+            elif a[0] == 'seq':
+                for e in a[2]:
+                    for b in e:
+                        if b[0] == 'cls':
+                            names.append(b[1])
+        return sorted(names)
 
     def handler_catches(self, fr, h, rec):
         if h.type is None:
@@ -1718,11 +1760,8 @@ class Interp:
                     for e in es:
                         x = join(x, e)
                     es = x
-                origin = None
-                inner = [b for b in a[2] if b != NONE]
-                if len(inner) == 1:
-                    origin = inner[0]
-                idx = ('idx', a[1], origin) if a[1] is not None else INT_U
+                origin = frozenset(b for b in a[2] if b != NONE)
+                idx = ('idx', a[1], origin)
                 if es:
                     out = join(out, av(('seq', 'tuple', (av(idx), es))))
             elif k == 'zip':
@@ -2038,6 +2077,9 @@ class Interp:
                                               for m in ci.methods):
                         raise self.err(node, 'operator overloaded by class {}'.format(c))
                 return set()        # TypeError: not among the judged faults
+        prim = lambda x: is_str_atom(x) or is_int_atom(x) or x in (BYTES, FLOAT, NONE) or x[0] in ('c', 'list', 'seq', 'set', 'dict', 'kdict', 'toks', 'lines')
+        if prim(a) and prim(b):
+            return set()            # operands of incompatible builtin types: TypeError, not among the judged faults
         return {TOP}
 
     def ex_BoolOp(self, fr, node):
@@ -2994,6 +3036,8 @@ class Interp:
                 for i, sname in args.syms.items():
                     merged.syms[i + len(a[2]) if isinstance(i, int) else i] = sname
                 r = self.call_value(fr, av(a[1]), merged, node)
+                if a in self.binding_atoms and INT_U in r:
+                    r = frozenset(INT_S if x == INT_U else x for x in r)
             elif k == 'builtin':
                 r = self.call_builtin(fr, a[1], args, node)
             elif k == 'lib':
@@ -3313,8 +3357,7 @@ class Interp:
             ev['cls'].add(cname)
             ev['tags'].add(tag)
         if cname == self.line_class:
-            a = args.pos + [BOT] * 3
-            self.ev_line.setdefault(id(node), []).append((fr.qual, node, args))
+            self.ev_line[id(node)] = [(fr.qual, node, args)]
         return av(('obj', cname, tag))
 
     def construct_builtin(self, fr, cname, args, node):
